@@ -280,7 +280,8 @@ func minimizeMode(t *testing.T) {
 	}
 	cur = best.Tape
 	accept := func(cand []Decision) bool {
-		if r := fails(cand); r != nil && len(r.Tape) <= len(cur) {
+		// strict progress: shorter tape, or same length with a smaller sum of values
+		if r := fails(cand); r != nil && (len(r.Tape) < len(cur) || (len(r.Tape) == len(cur) && tapeSum(r.Tape) < tapeSum(cur))) {
 			cur = r.Tape
 			best = r
 			return true
@@ -319,6 +320,20 @@ func minimizeMode(t *testing.T) {
 				}
 			}
 		}
+		// pass C: delete windows of every small size at every position (operations span a few decisions each)
+		for size := 12; size >= 1 && alive(); size-- {
+			for i := 0; i+size <= len(cur) && alive(); {
+				cand := append(append([]Decision{}, cur[:i]...), cur[i+size:]...)
+				if !accept(cand) {
+					i++
+				} else {
+					changed = true
+				}
+			}
+		}
+		if os.Getenv("SIM_DEBUG_MIN") != "" {
+			fmt.Printf("round %d: %d -> %d decisions, %d tries\n", round, before, len(cur), tries)
+		}
 		if !changed && len(cur) == before {
 			break
 		}
@@ -334,4 +349,12 @@ func minimizeMode(t *testing.T) {
 		Config: res.Config, Decisions: res.Tape, LogHash: res.LogHash, Trace: res.Trace, Ingredients: res.Violation.Ingredients, Minimised: true, OrigLen: rf.OrigLen}
 	writeJSON(*fOut, out)
 	fmt.Printf("minimised %d -> %d decisions in %d tries\n", rf.OrigLen, len(res.Tape), tries)
+}
+
+func tapeSum(t []Decision) int {
+	s := 0
+	for _, d := range t {
+		s += d.V
+	}
+	return s
 }
